@@ -475,6 +475,8 @@ fn probe(h: H) -> Out {
             let s = with_comp!(t, C => probe_res::<MaskedStorage<C>>(&world));
             o.extend([10 + t as i64, s]);
         }
+        // a handle declares nothing about the table of storages, so it must not hold it either
+        let meta = probe_res::<specs::shred::MetaTable<dyn specs::storage::AnyStorage>>(&world);
         drop(data);
         // nothing may stay borrowed once the handle is gone
         let mut left = 0;
@@ -485,6 +487,9 @@ fn probe(h: H) -> Out {
         }
         if left != 0 {
             o.push(-1);
+        }
+        if meta != 0 {
+            o.push(-2);
         }
         o
     });
